@@ -20,7 +20,12 @@ MODULE = 'KdVerif.Props.C13'
 NAMESPACE = 'KdVerif.C13'
 TRUSTED = ['Model/TracePipeline.lean written statement by statement like PyKdebugParser.traces / callstacks / kevents (explicit '
            'object state: filter attributes, shared lookup tables, image lists), tied to the code by the sections '
-           '`trace-filters`, `trace-requests` and `trace-filters-K3`',
+           '`trace-filters`, `trace-requests` and `trace-filters-K3`; what traces() itself decides - the copy of filter_class with '
+           'the helper classes handed to kevents (effectiveClasses), the post-filter stages and their order (postFilter), the '
+           'process test (processMatches), no residue in the filter attributes - is tied to the SOURCE TEXT by translation '
+           '(tools/gen_pyir_fl.py -> Gen/PyIRFl, source_is_expected_ir, traces_ir_eq_model, filter_process_callback_ir_eq_model, '
+           'traces_request_rests_on_ir); trusted for that: the translator and the interpreter Model/PyIRFl (section traces-ir '
+           'tests them against CPython)',
            'Model/Trace.lean (whole TracesParser), Model/Filters.lean (event-level filter), Model/Callstacks.lean as tied by '
            'their own properties (C05/C07/C08/C20, C12, C15)',
            'the version-2 container parser is replaced in the model by its result (thread map + records; C02)']
@@ -309,10 +314,10 @@ def tmap_arg(tmap):
     return ';'.join('%d:%d:%s' % (t, p, hs(n)) for t, p, n in tmap) or '-'
 
 
-def line(case):
+def line(case, cmd='tpipe'):
     cfg = case['cfg']
     codes = {int(k): v for k, v in case['codes'].items()}
-    return ' '.join(['tpipe', PL.codes_arg(codes), tmap_arg(case['tmap']), 'N' if cfg['tid'] is None else str(cfg['tid']),
+    return ' '.join([cmd, PL.codes_arg(codes), tmap_arg(case['tmap']), 'N' if cfg['tid'] is None else str(cfg['tid']),
                      csv(cfg['classes']), csv(cfg['subclasses']), 'N' if cfg['process'] is None else hs(cfg['process']),
                      case['reqs']] + case['events'])
 
@@ -609,6 +614,29 @@ def lazy_section(rep, rng, tier):
         rep.broken.append('correspondence:trace-lazy-requests (%d of %d requests differ)' % (sec['mismatches'], sec['cases']))
 
 
+C13_METHODS = ('traces', '_filter_process_callback', 'kevents', '_is_eventid_allowed', 'notes')
+
+
+def translation_tie(rep):
+    """Is the IR translated from pykdebugparser.py the one the refinement theorems are about?  Returns whether the
+    generated methods can be run (no `.unsupported` node)."""
+    ans = core.drive(['flircheck'])[0]
+    if ans == 'same':
+        rep.notes.append('translation tie: Gen/PyIRFl (from pykdebugparser.py) = Spec/PyIRFlExpected')
+        return True
+    differing = ans.split(' ')[1].split(',') if ans.startswith('differs ') else [ans]
+    mine = [m for m in differing if m in C13_METHODS or not ans.startswith('differs ')]
+    if mine:
+        rep.broken.append('theorem source_is_expected_ir: the IR that tools/gen_pyir_fl.py translates from the source text of '
+                          'pykdebugparser.py (%s) is not the one of Spec/PyIRFlExpected that traces_ir_eq_model / '
+                          'filter_process_callback_ir_eq_model / traces_request_rests_on_ir are proved for (%s)'
+                          % (', '.join(mine), ans))
+    else:
+        rep.notes.append('translation tie: the methods of this property translate to Spec/PyIRFlExpected (%s: other '
+                         'property)' % ans)
+    return 'unsupported' not in ans
+
+
 def correspondence(rep, rng, tier):
     from .. import pipeline as _PL
     _PL.section_e2e(rep, rng, tier, n=(120 if tier == 'quick' else 4000))
@@ -624,6 +652,18 @@ def correspondence(rep, rng, tier):
                 skip_fn=lambda m: 'Unmodelled' in m)
     n2 = 500 if tier == 'quick' else 12000
     cases2 = [gen_case(rng) for _ in range(n2)] + [gen_callstack_case(rng) for _ in range(n2 // 3)]
+    if translation_tie(rep):
+        ir_cases = (cases if tier == 'quick' else cases[::8]) + cases2[::4]
+        run_section(rep, 'traces-ir', ir_cases, lambda c: line(c, 'tpipeir'), impl_fn, oracle, nontrivial_fn=nontriv,
+                    kind_fn=kind, skip_fn=lambda m: 'Unmodelled' in m or m == 'unsupported',
+                    rule='the cases of `trace-filters` and every fourth of `trace-requests` once more, with everything traces() itself '
+                         'decides taken from the methods GENERATED from the source text (Gen/PyIRFl run by the interpreter of '
+                         'Model/PyIRFl, command `tpipeir`): the class list handed to kevents, the events kevents feeds the '
+                         'TracesParser model, the post-filter stages (process callback on the tables at the yield, the two helper '
+                         'class stages) and their order, the filter attributes after the request - tests the translator and the '
+                         'interpreter, not the hand model of traces()')
+    else:
+        rep.notes.append('section traces-ir skipped: the translation contains .unsupported nodes')
     run_section(rep, 'trace-requests', cases2, line, impl_fn, oracle, nontrivial_fn=lambda c, g: len(c['reqs']) > 1,
                 kind_fn=lambda c, g: c['reqs'],
                 rule='the same dumps and settings under request sequences tt, ttt, tct, cc, ctc, ktk, tkt, … on one object: '
@@ -645,7 +685,7 @@ def correspondence(rep, rng, tier):
                      'requested without its class')
 
 
-SECTIONS = ('trace-filters', 'trace-requests', 'trace-filters-K3', 'trace-filters-helper-subclass')
+SECTIONS = ('trace-filters', 'trace-requests', 'traces-ir', 'trace-filters-K3', 'trace-filters-helper-subclass')
 
 
 def replay(path):
@@ -682,7 +722,7 @@ def replay(path):
         got = impl_fn(case)
     except Exception as e:
         got = 'err ' + core.err_name(e)
-    model = core.drive([line(case)])[0]
+    model = core.drive([line(case, 'tpipeir' if r['replay'].get('section') == 'traces-ir' else 'tpipe')])[0]
     print('impl :', got[:3000])
     print('model:', model[:3000])
     res = oracle(case, got)
@@ -706,10 +746,18 @@ LEVEL_TEXT = ('Lean theorems over the object-state model of PyKdebugParser.trace
               'the filter; ingredients windows_commute_class, helper_postfilters_exact, generated_text_commutes_class_partial, '
               'run_filter_traces), process_filter_is_postfilter and traces_commute_process_partial (under the explicit '
               'hypothesis that the attribution survives the event-level filter; negative witness of K3 in the model); model '
-              'tied to the code by differential runs under all filter combinations and request sequences.')
+              'tied to the code by differential runs under all filter combinations and request sequences, and what traces() '
+              'itself decides to the source text by translation: source_is_expected_ir, traces_ir_eq_model (for every '
+              'configuration the translated traces(), interpreted, hands kevents effectiveClasses on a COPY, leaves the filter '
+              'attributes alone and its stages keep exactly postFilter), filter_process_callback_ir_eq_model, '
+              'traces_request_rests_on_ir (fedEvents / traces of the model are the interpreted source around the TracesParser '
+              'model).')
 LEVEL_NOTE = ('traces_commute_class compares handler, first record, payload, text and decoded fields (not the event list, which '
               'loses the records of other classes; not thread-terminate\'s text: K3b) and assumes a code table closed under the '
               'filter (checked for the bundled table at run time).  The process filter commutes only under an explicit '
               'hypothesis: known finding K3 (attribution records removed by the event-level filter).  Out of the claim: '
-              'subclasses of the helper classes (K13).')
-TECHNIQUE = 'Lean 4 proofs over an explicit object-state model + differential correspondence + oracle computed on the real code'
+              'subclasses of the helper classes (K13).  Translation tie: trusted are the translator tools/gen_pyir_fl.py and the '
+              'interpreter Model/PyIRFl (tested against CPython by the section traces-ir); TracesParser, the container parser and '
+              'callstacks() stay hand-modelled.')
+TECHNIQUE = ('Lean 4 proofs over an explicit object-state model + translation validation of traces() / _filter_process_callback '
+             '+ differential correspondence + oracle computed on the real code')
